@@ -251,6 +251,7 @@ class Run:
         self.fjit = None
         self.table: dict[str, list] = {}
         self.shared_options: dict | None = None
+        self.shared_callbacks: dict = {}
         self.async_at = set(spec.get('async_at') or []) if self.fine else set()
         self.async_pending = False
         self.line_events = 0
@@ -445,6 +446,10 @@ class Run:
                     from furax._base.config import default_solver_callback
 
                     kw['solver_callback'] = default_solver_callback
+                elif val in ('k0', 'k1'):
+                    if val not in self.shared_callbacks:
+                        self.shared_callbacks[val] = self.make_callback(val, False)
+                    kw['solver_callback'] = self.shared_callbacks[val]
                 else:
                     kw['solver_callback'] = self.make_callback(f'c{uid}' if val == 'u' else f'r{uid}', val == 'R')
         return kw
